@@ -103,4 +103,10 @@ theorem C10_event_is_protocol_decoding (L : Layout) (h : Gen.Messages.all.lookup
   rw [hr] at hd
   exact ⟨r, hs, hd⟩
 
+/-- the status mapping `classify` applies to a decoded event is the one translated from `Listen` in
+    uhppote/listen.go on this run (which event field goes where, the system date-time closure, the event
+    part filled exactly when the event index is non-zero) -/
+theorem C10_status_mapping_regenerated (r : List Val) : Gen.Status.listenStatus r = statusResult r :=
+  (C02.C02_status_regenerated r).2
+
 end Uhppote.Props.C10
